@@ -4809,7 +4809,7 @@ def Attack_rate_discrete_from_graph(G, p, initial_infecteds=None,
         phiR0 = 0
         
     
-    return Attack_rate_discrete(Pk, p, rho = rho, Sk0=Sk0, phiS0=PhiS0, 
+    return Attack_rate_discrete(Pk, p, rho = rho, Sk0=Sk0, phiS0=phiS0, 
                                 phiR0=phiR0, number_its = number_its)
 
 def Attack_rate_cts_time(Pk, tau, gamma, number_its =100, rho = None, 
